@@ -212,11 +212,16 @@ def Judge.observe (cfg : Cfg) (env : Env) (now : Int) (j : Judge) (op : Op) (o :
 (`bye` of its connection, expiry, kick), judged at rest: whichever came first, the tables are those of
 "the session has ended" — a connection still kept for it was attached to a session that was no longer
 live, and if it was told `hello sid` it holds a session for a resume id of no live session. -/
-def Judge.observeRace (j : Judge) (sid : Nat) (gotHello : Bool) (o : Obs) : Judge × String :=
+def Judge.observeRace (j : Judge) (sid : Nat) (gotHello : Bool) (o : Obs) (resumedOn : Option Nat := none) :
+    Judge × String :=
   let j' : Judge := { sessions := o.sessions }
   if o.dangling then
     if gotHello then (j', "violated:session-without-valid-credentials:resume-id-of-a-session-that-has-ended")
     else (j', "violated:connection-kept-for-a-session-that-is-not-live")
+  -- the end was a `bye` on the session's old connection and the resume came first: the take-over closes that
+  -- connection, and a bye that was still in flight on it is lost with it — the session lives on, attached to
+  -- the resuming connection (which was told so)
+  else if gotHello && resumedOn.isSome && o.sessions.any (fun s => s.sid = sid && s.conn == resumedOn) then (j', "ok")
   else if o.sessions.any (fun s => s.sid = sid) then (j', "violated:ended-session-still-in-the-table")
   else if gotHello then
     -- attached while the session was live (it was: the previous observation has it), ended afterwards
